@@ -12,13 +12,26 @@
    sort_declaration_property (the empty-line groups it sorts within are layout). *)
 From Coq Require Import List Bool NArith Strings.String Permutation.
 From Falco Require Import Base.Res Base.Bytes Gen.FmtConfig Model.FmtTok Model.FmtNorm
-  Proofs.FmtConfigTie Proofs.FmtComments Proofs.FmtSig Proofs.FmtSort Proofs.FmtExamples.
+  Proofs.FmtConfigTie Proofs.FmtComments Proofs.FmtSig Proofs.FmtSort Proofs.FmtSortStream Proofs.FmtExamples.
 Import ListNotations.
 
 (* every configuration, every token stream (sort_declaration off: the order is kept) *)
 Theorem C03_norm_significant_partial :
   forall c ts, sort_declaration c = false -> rewrites c (significant ts) (significant (norm c ts)).
 Proof. exact norm_significant. Qed.
+
+(* every configuration, sort_declaration included: the rewritten tokens, then the declarations
+   permuted as blocks by Declarations.Sort - each declaration keeps its tokens, in order *)
+Theorem C03_norm_significant_sorted_partial :
+  forall c ts, exists l, rewrites c (significant ts) l /\
+    (significant (norm c ts) = l
+     \/ exists G, l = concat (map group_toks G)
+                  /\ significant (norm c ts) = concat (map group_toks (sort_groups G))).
+Proof. exact norm_significant_sorted. Qed.
+
+Theorem C03_norm_significant_perm :
+  forall c ts, exists l, rewrites c (significant ts) l /\ Permutation l (significant (norm c ts)).
+Proof. exact norm_significant_perm. Qed.
 
 (* the pass itself, from any reachable state: used for every declaration when they are sorted *)
 Theorem C03_run_rewrites :
@@ -63,6 +76,8 @@ Section Full.
 End Full.
 
 Print Assumptions C03_norm_significant_partial.
+Print Assumptions C03_norm_significant_sorted_partial.
+Print Assumptions C03_norm_significant_perm.
 Print Assumptions C03_run_rewrites.
 Print Assumptions C03_sort_is_permutation.
 Print Assumptions C03_isort_is_permutation.
